@@ -1,7 +1,9 @@
 package main
 
 import (
+	"context"
 	"fmt"
+	"net/http/httptest"
 	"sort"
 	"strings"
 	"sync"
@@ -13,7 +15,7 @@ import (
 
 // C13: conservation ledger (DESIGN.md Appendix A.4) at quiescence.
 
-var c13Kinds = []string{"ok", "n4", "f5", "refuse", "short", "reset", "cdown", "cup", "rl", "cb", "ch", "nb"}
+var c13Kinds = []string{"ok", "n4", "f5", "refuse", "short", "reset", "cdown", "cup", "rl", "cb", "ch", "nb", "gone", "oddkey"}
 
 type c13Case struct {
 	Strategy string   `json:"strategy"`
@@ -62,7 +64,7 @@ func c13Run(e *vh.Env, c c13Case, o *vh.Out) {
 		}
 		return false
 	}
-	if hasKind("rl") {
+	if hasKind("rl") || hasKind("oddkey") {
 		cfg.RateLimit = config.RateLimitConfig{Enabled: true, MaxTokens: 3, RefillRate: 3600}
 	}
 	if hasKind("cb") || hasKind("ch") {
@@ -94,8 +96,8 @@ func c13Run(e *vh.Env, c c13Case, o *vh.Out) {
 			led.nobackend++
 		default:
 			led.other++
-			if kind == "refuse" {
-				led.unreachable++
+			if kind == "refuse" || kind == "gone" {
+				led.unreachable++ // dispatched to a backend that never saw the request
 			}
 		}
 	}
@@ -147,6 +149,24 @@ func c13Run(e *vh.Env, c c13Case, o *vh.Out) {
 			}
 			account(trial, "ok")
 			return
+		case "gone":
+			// the client has already given up when the balancer gets the request (context cancelled before anything
+			// is forwarded): dispatched to a backend, never arrives there
+			ctx, cancel := context.WithCancel(context.Background())
+			cancel()
+			rq := httptest.NewRequest("GET", "/gone", nil).WithContext(ctx)
+			rq.RemoteAddr = "10.13.77.1:1"
+			rq.Header.Set("X-Forwarded-For", hdr[0][1])
+			rec := httptest.NewRecorder()
+			sys.Handler.ServeHTTP(finalOnly{rec}, rq)
+			account(faultResult{Status: rec.Code, Body: trunc(rec.Body.String(), 80)}, "gone")
+			return
+		case "oddkey":
+			// the limiter is on and the client address in the header is not an IP address: still one client, still counted
+			for _, v := range []string{"unknown", "proxy.internal", "_hidden"} {
+				account(doFault(sys, "ok", [][2]string{{"X-Forwarded-For", v}}), "ok")
+			}
+			return
 		case "nb":
 			// every backend ejected: "no healthy backend"
 			for _, b := range sys.LB.VerifBackends() {
@@ -171,7 +191,7 @@ func c13Run(e *vh.Env, c c13Case, o *vh.Out) {
 			go func() {
 				defer wg.Done()
 				for _, k := range c.Kinds {
-					if k == "refuse" || k == "nb" || k == "rl" || k == "cb" || k == "ch" {
+					if k == "refuse" || k == "nb" || k == "rl" || k == "cb" || k == "ch" || k == "oddkey" {
 						continue
 					}
 					one(k, cl)
@@ -180,7 +200,7 @@ func c13Run(e *vh.Env, c c13Case, o *vh.Out) {
 		}
 		wg.Wait()
 		for _, k := range c.Kinds {
-			if k == "refuse" || k == "nb" || k == "rl" || k == "cb" || k == "ch" {
+			if k == "refuse" || k == "nb" || k == "rl" || k == "cb" || k == "ch" || k == "oddkey" {
 				one(k, 0)
 			}
 		}
@@ -232,7 +252,7 @@ func c13Run(e *vh.Env, c c13Case, o *vh.Out) {
 
 // c13Dominant names the rarest kind of the multiset for the signature.
 func c13Dominant(kinds []string) string {
-	prio := []string{"cup", "cdown", "short", "reset", "refuse", "nb", "ch", "cb", "rl", "f5", "n4", "ok"}
+	prio := []string{"gone", "oddkey", "cup", "cdown", "short", "reset", "refuse", "nb", "ch", "cb", "rl", "f5", "n4", "ok"}
 	for _, p := range prio {
 		for _, k := range kinds {
 			if k == p {
@@ -291,7 +311,7 @@ func init() {
 			}
 			o.Distinct(fmt.Sprintf("%s|%v|%d|%d", c.Strategy, k, c.Clients, c.NBack))
 			if len(c.Kinds) == 3 && c.Kinds[0] == "ok" && c.Kinds[1] == "short" && c.Kinds[2] == "rl" {
-				o.Sample(map[string]any{"part": "ledger", "case": c, "kinds": "ok n4 f5 refuse short reset cdown(client abort mid-download) cup(client abort mid-upload) rl(burst beyond limiter) cb(500 then breaker-rejected) ch(half-open trial pending, extra requests rejected) nb(all ejected)"})
+				o.Sample(map[string]any{"part": "ledger", "case": c, "kinds": "gone(context cancelled before forwarding) oddkey(limiter on, client address not an IP) ok n4 f5 refuse short reset cdown(client abort mid-download) cup(client abort mid-upload) rl(burst beyond limiter) cb(500 then breaker-rejected) ch(half-open trial pending, extra requests rejected) nb(all ejected)"})
 			}
 		})
 
